@@ -134,7 +134,8 @@ theorem row_line_self (m : CM V) (k start stop : Nat) :
 theorem row_entry (m : CM V) (k start stop a b : Nat) : (m.row k start stop).entry a b = m.entry a b := rfl
 
 theorem cmInv_row {m : CM V} (h : CMInv m) {k stop : Nat} (start : Nat)
-    (hk : k < m.n) (hpos : 0 < stop) (hn : stop ≤ m.n) (hcap : stop ≤ m.cache.maxSize) :
+    (hk : k < m.n) (hpos : 0 < stop ∨ m.cache.isCached k = true) (hn : stop ≤ m.n)
+    (hcap : stop ≤ m.cache.maxSize) :
     CMInv (m.row k start stop) := by
   constructor
   · exact inv_getCacheLine h.lru k _ hpos hcap
